@@ -48,7 +48,8 @@ static void run_case(val *c)
 		archive_entry_set_uid(e, v_ll(v_at(ev, 3)));
 		archive_entry_set_gid(e, v_ll(v_at(ev, 4)));
 		archive_entry_set_mtime(e, v_ll(v_at(ev, 5)), 0);
-		if (archive_entry_filetype(e) == AE_IFREG) archive_entry_set_size(e, (la_int64_t)v_len(body));
+		/* like archive_entry_copy_stat(): every entry has a size (the cpio writers refuse entries without one) */
+		archive_entry_set_size(e, archive_entry_filetype(e) == AE_IFREG ? (la_int64_t)v_len(body) : 0);
 		if (v_len(v_at(ev, 7))) { char *t = v_cstr(v_at(ev, 7)); archive_entry_copy_symlink(e, t); free(t); }
 		if (v_len(v_at(ev, 8))) { char *t = v_cstr(v_at(ev, 8)); archive_entry_copy_hardlink(e, t); free(t); }
 		for (j = 0; j < v_len(sp); j++)
